@@ -102,6 +102,12 @@ def c17(c):
 def c19(c):
     """C19 = stream broker half (this family) + map broker half (fam/mapbroker.py c19_map); counters are summed."""
     _run(c, 'C19')
+    # blocking assumption of the model: Publish (cache lookup, append, save) is one action under the channel's publish lock
+    pr = c.harness(c.go_build('membroker'), 'idemrace', {'n': 5 if c.tier == 'quick' else 40}, timeout=300)
+    c.absorb(pr)
+    c.cov['idempotency_race_probes'] = pr['completed']
+    c.cov['traces_validated_against_impl'] += pr['completed']
+    c.cov['evaluations'] += pr['executed']
     from fam import mapbroker
     mapbroker.c19_map(c)
 
